@@ -360,6 +360,7 @@ func writeItemN(ds string, kind string, via *proc, k int, tries int) {
 	u, _ := uuid.FromString(ds)
 	emit(event{"ev": "wsubmit", "kind": kind, "id": k})
 	var err error
+	uncertain := false
 	for try := 0; try < tries; try++ {
 		ctx, cancel := context.WithTimeout(context.Background(), 3*time.Second)
 		cl := pb.NewDataManagerClient(via.conn)
@@ -375,13 +376,27 @@ func writeItemN(ds string, kind string, via *proc, k int, tries int) {
 		if err == nil || strings.Contains(err.Error(), "exists") || strings.Contains(err.Error(), "not found") {
 			break
 		}
+		// this attempt may or may not have taken effect: whatever the next one says is no longer definite
+		uncertain = true
 		time.Sleep(400 * time.Millisecond)
 	}
-	okv, es := 1, ""
+	okv, es, res := 1, "", "ok"
 	if err != nil {
-		okv, es = 0, err.Error()
+		okv, es, res = 0, err.Error(), "err"
+		// definite refusals: the item is (not) there, nothing changed
+		if strings.Contains(es, "exists") {
+			res = "exists"
+		} else if strings.Contains(es, "not found") {
+			res = "notfound"
+		}
+		if uncertain {
+			res = "err"
+		}
+	} else if uncertain && kind != "insert" {
+		// a remove / update acknowledged after an attempt of unknown fate: the earlier one may have done it
+		res = "ok"
 	}
-	emit(event{"ev": "wack", "kind": kind, "id": k, "ok": okv, "err": es})
+	emit(event{"ev": "wack", "kind": kind, "id": k, "ok": okv, "err": es, "res": res})
 }
 
 func findItems(ds string, ps []*proc, tag string) {
@@ -762,6 +777,11 @@ func main() {
 		write("remove", b, 6)
 		write("update", c, 5)
 		write("insert", a, 6)
+		// refusals have to be as truthful as acknowledgements
+		write("insert", b, 4)
+		write("remove", c, 99)
+		write("update", a, 98)
+		write("remove", b, 3)
 		find("writes")
 		for _, p := range ps {
 			p.kill()
